@@ -250,10 +250,13 @@ type TraceVerdict struct {
 	Mismatches []int    // 1-based indices of events the spec could not explain
 	Details    []string // printed tuple per mismatch (truncated)
 	InvViolated string  // a spec invariant failed on a state reached by matching steps
+	Drifts       []int    // events whose outcome satisfies the property but differs from the model's prediction
+	DriftDetails []string
 	Res        *Result
 }
 
 var reMis = regexp.MustCompile(`<<\s*"MISMATCH",\s*(\d+),`)
+var reDrift = regexp.MustCompile(`<<\s*"DRIFT",\s*(\d+),`)
 
 func ValidateTrace(module, cfg string, trace []byte, extra map[string][]byte, timeout time.Duration, dfs bool) (*TraceVerdict, error) {
 	files := map[string][]byte{"trace.ndjson": trace}
@@ -280,6 +283,15 @@ func ValidateTrace(module, cfg string, trace []byte, extra map[string][]byte, ti
 			d = d[:i+2]
 		}
 		v.Details = append(v.Details, strings.Join(strings.Fields(d), " "))
+	}
+	for _, m := range reDrift.FindAllStringSubmatchIndex(res.Out, -1) {
+		idx, _ := strconv.Atoi(res.Out[m[2]:m[3]])
+		v.Drifts = append(v.Drifts, idx)
+		end := m[0] + 700
+		if end > len(res.Out) {
+			end = len(res.Out)
+		}
+		v.DriftDetails = append(v.DriftDetails, strings.Join(strings.Fields(res.Out[m[0]:end]), " "))
 	}
 	if res.OK {
 		v.Consumed = true
